@@ -95,6 +95,19 @@ func vc08Init() {
 		{0xff, 0xff, 0xff, 0xff, 0xff, 0xff, 0xff, 0xff, 0xff, 0xff, 0x01},
 		[]byte(vc08Peers[0])[:20],
 	}
+	for _, c := range vc08Cids {
+		vc08Intern(c.String())
+	}
+	for _, p := range vc08Peers {
+		vc08Intern(peer.Encode(p))
+	}
+	for _, a := range vc08Addrs {
+		vc08Intern(a.String())
+	}
+	for _, j := range vc08Junk {
+		vc08Intern(hex.EncodeToString(j))
+		vc08Intern(peer.Encode(peer.ID(j)))
+	}
 }
 
 func vc08Clamp(i, n int) int {
@@ -108,7 +121,29 @@ func vc08Clamp(i, n int) int {
 }
 
 // ---------------------------------------------------------------- Coq printing
+// long universe texts are defined once in the header of a cases file and referred to by name
+// (Coq elaborates string literals slowly)
+var vc08Names = map[string]string{}
+var vc08NameDefs []string
+
+func vc08Intern(s string) {
+	if _, ok := vc08Names[s]; ok || len(s) < 8 {
+		return
+	}
+	n := "u" + strconv.Itoa(len(vc08Names))
+	vc08NameDefs = append(vc08NameDefs, "Definition "+n+" := "+vc08Str(s)+".")
+	vc08Names[s] = n
+}
+
+func vc08Header() string {
+	return "From V Require Import Base.Common Base.C08_Str Model.C08_Codec Model.C08_Query Model.C08_Check.\nOpen Scope string_scope.\nOpen Scope N_scope.\n" +
+		strings.Join(vc08NameDefs, "\n")
+}
+
 func vc08Str(s string) string {
+	if n, ok := vc08Names[s]; ok {
+		return n
+	}
 	plain := true
 	for i := 0; i < len(s); i++ {
 		if s[i] < 0x20 || s[i] > 0x7e {
